@@ -151,5 +151,6 @@ void reg_fs()
 {
     registerFamily("fs", run_fs);
     registerFamily("fsm", run_fsm);
+    registerFamily("fsl", run_fs);        // the same, judged by the statement alone (listings whose entry order is not determined)
     registerFamily("pathprobe", run_pathprobe);
 }
